@@ -1,1 +1,201 @@
-import RaftLogModel.Model.Sys
+/-
+C14 — Dropping the store quiesces it.
+
+`drop` closes the channel and joins the worker: with all-ok outcomes the worker
+executes everything that is queued and exits (`pc = dead`, empty queue); after
+`drop` returns no step of the system touches the file system until the next
+`open`.
+
+The model joins the worker with a bounded loop, `WCtx.runQuiet (Worker.fuel w)`.
+`Worker.fuel` is sufficient: `drainCost + files.length + 6 ≤ fuel`, where
+`Worker.drainCost` is a measure that every all-ok step decreases.
+
+History: the first version of the model's `Worker.fuel` forgot the postponed
+removals (`Worker.postponed`) and was NOT sufficient (a 29-ids-postponed state
+reachable from `Sys.fresh` made the join loop stop in the middle of a removal;
+this was found by this proof attempt and checked by `decide` at the time). The
+fuel was then corrected to count `postponed.length`; the theorems below are
+about the corrected fuel and need no bound on `postponed`.
+-/
+import RaftLogModel.Proofs.WorkerSys
+namespace RaftLog
+
+/-! ### (g) Termination -/
+
+/-- (g) Own measure: every all-ok step from a non-quiet state decreases
+`Worker.drainCost`, so any fuel `n ≥ drainCost` reaches a quiet state. No
+assumption on the state. -/
+theorem c14_worker_terminates_measure (c : WCtx) :
+    (c.w.quiet = false → (c.step .ok).w.drainCost < c.w.drainCost) ∧
+    ∀ n, c.w.drainCost ≤ n → (WCtx.runQuiet n c).w.quiet = true :=
+  ⟨c.step_ok_decreases, fun n => WCtx.runQuiet_quiet n c⟩
+
+/-- (g) Comparison with the model's fuel: `drainCost + files.length + 6 ≤ fuel`
+(for states whose parked write data are non-empty, an invariant:
+`c14_todoOK_invariant`, true of every reachable state: `c14_todoOK_reachable`). -/
+theorem c14_fuel_bound (w : Worker) (ht : w.TodoOK) :
+    w.drainCost + w.files.length + 6 ≤ w.fuel :=
+  w.drainCost_le_fuel ht
+
+/-- (g) The model's fuel reaches a quiet state. -/
+theorem c14_fuel_sufficient (c : WCtx) (ht : c.w.TodoOK) :
+    (WCtx.runQuiet c.w.fuel c).w.quiet = true :=
+  c.runQuiet_fuel_quiet ht
+
+theorem c14_todoOK_invariant (c : WCtx) (out : Outcome) (h : c.w.TodoOK) : (c.step out).w.TodoOK :=
+  c.step_todoOK out h
+
+/-- (g) With the model's `Worker.fuel`: once the channel is closed
+(`senderAlive = false`, worker not blocked in `recv`), the all-ok run reaches
+`pc = dead` with an empty queue. -/
+theorem c14_worker_terminates (c : WCtx) (ha : c.w.senderAlive = false) (hi : c.w.pc ≠ .idle)
+    (hdq : c.w.pc = .dead → c.w.queue = []) (ht : c.w.TodoOK) :
+    (WCtx.runQuiet c.w.fuel c).w.quiet = true ∧
+    (WCtx.runQuiet c.w.fuel c).w.pc = .dead ∧ (WCtx.runQuiet c.w.fuel c).w.queue = [] := by
+  have hn : c.w.drainCost ≤ c.w.fuel := by
+    have := c.w.drainCost_le_fuel ht
+    omega
+  exact ⟨WCtx.runQuiet_quiet _ c hn, WCtx.runQuiet_closing _ c ⟨ha, hi, hdq⟩ hn⟩
+
+/-- (g) The same for any fuel `n ≥ drainCost`, without `TodoOK`. -/
+theorem c14_worker_terminates_any (c : WCtx) (n : Nat) (ha : c.w.senderAlive = false)
+    (hi : c.w.pc ≠ .idle) (hdq : c.w.pc = .dead → c.w.queue = []) (hn : c.w.drainCost ≤ n) :
+    (WCtx.runQuiet n c).w.pc = .dead ∧ (WCtx.runQuiet n c).w.queue = [] :=
+  WCtx.runQuiet_closing n c ⟨ha, hi, hdq⟩ hn
+
+/-- Every state reachable from a store opened on an empty directory satisfies
+the structural hypotheses (`Worker.WF`, `Worker.TodoOK`) while a store is open. -/
+theorem c14_todoOK_reachable (cfg : Cfg) (steps : List Step)
+    (hs : ((Sys.fresh cfg).run steps).store ≠ none) :
+    ((Sys.fresh cfg).run steps).worker.WF ∧ ((Sys.fresh cfg).run steps).worker.TodoOK :=
+  (SysWF.fresh cfg).run steps hs
+
+/-! ### (h) `drop` -/
+
+/-- (h) After `drop` of an open store: no store, lock released, worker thread
+gone. The new file system and worker are those of the joined worker run
+(`Sys.dropEnd`). Unconditional. -/
+theorem c14_drop_state (y : Sys) (s : Store) (hs : y.store = some s) :
+    y.dropStore.1.store = none ∧ y.dropStore.1.locked = false ∧ y.dropStore.1.worker.pc = .dead ∧
+    y.dropStore.1.fs = (y.dropEnd s).fs ∧ y.dropStore.2 = (y.dropEnd s).evs := by
+  rw [y.dropStore_eq s hs]
+  exact ⟨rfl, rfl, rfl, rfl, rfl⟩
+
+/-- (h) After `drop` nothing moves until the next `open`: worker steps, the
+idle run, cache draining, calls and flushes leave the whole system (in
+particular the file system) unchanged and emit no event. Unconditional. -/
+theorem c14_after_drop_nothing_moves (y : Sys) (s : Store) (hs : y.store = some s) :
+    (∀ out, y.dropStore.1.workerStep out = (y.dropStore.1, [])) ∧
+    y.dropStore.1.workerIdle = (y.dropStore.1, []) ∧
+    (∀ st : Step, (∃ out, st = .worker out) ∨ st = .workerIdle ∨ st = .drain ∨
+        (∃ op, st = .call op) ∨ (∃ cb, st = .flush cb) ∨ st = .drop →
+      y.dropStore.1.step st = y.dropStore.1) ∧
+    (∀ out, (({ w := y.dropStore.1.worker, fs := y.dropStore.1.fs, cache := s.cache } : WCtx).step out)
+      = { w := y.dropStore.1.worker, fs := y.dropStore.1.fs, cache := s.cache }) := by
+  have h0 : y.dropStore.1.store = none := (c14_drop_state y s hs).1
+  have hd : y.dropStore.1.worker.pc = .dead := (c14_drop_state y s hs).2.2.1
+  generalize y.dropStore.1 = y' at h0 hd
+  refine ⟨?_, ?_, ?_, ?_⟩
+  · intro out; simp [Sys.workerStep, h0]
+  · simp [Sys.workerIdle, h0]
+  · intro st hst
+    rcases hst with ⟨out, rfl⟩ | rfl | rfl | ⟨op, rfl⟩ | ⟨cb, rfl⟩ | rfl
+    · simp [Sys.step, Sys.workerStep, h0]
+    · simp [Sys.step, Sys.workerIdle, h0]
+    · simp [Sys.step, Sys.drain, h0]
+    · simp [Sys.step, Sys.call, h0]
+    · simp [Sys.step, Sys.flush, h0]
+    · simp [Sys.step, Sys.dropStore, h0]
+  · intro out
+    exact WCtx.step_deadW _ out hd
+
+/-- (h) Every queued request was executed or (after a worker death) dropped:
+the joined worker ended by itself with `pc = dead` and an empty queue (so the
+`pc := dead` the model forces is a no-op). The two hypotheses on the worker
+are invariants (`Worker.WF`, `Worker.TodoOK`), see `c14_drop_quiesces_reachable`. -/
+theorem c14_drop_quiesces (y : Sys) (s : Store) (hs : y.store = some s)
+    (hdq : y.worker.pc = .dead → y.worker.queue = []) (ht : y.worker.TodoOK) :
+    y.dropStore.1.store = none ∧ y.dropStore.1.locked = false ∧
+    y.dropStore.1.worker.pc = .dead ∧ y.dropStore.1.worker.queue = [] ∧
+    y.dropStore.1.worker = (y.dropEnd s).w ∧ (y.dropEnd s).w.quiet = true := by
+  obtain ⟨h1, h2⟩ := y.dropEnd_dead s hdq ht
+  rw [y.dropStore_eq s hs]
+  refine ⟨rfl, rfl, rfl, h2, ?_, ?_⟩
+  · show { (y.dropEnd s).w with pc := .dead } = (y.dropEnd s).w
+    rw [← h1]
+  · simp [Worker.quiet, h1]
+
+/-- (h) For every history from a store opened on an empty directory: no side
+condition besides reachability and an open store. -/
+theorem c14_drop_quiesces_reachable (cfg : Cfg) (steps : List Step) (s : Store)
+    (hs : ((Sys.fresh cfg).run steps).store = some s) :
+    (((Sys.fresh cfg).run steps).dropStore.1).store = none ∧
+    (((Sys.fresh cfg).run steps).dropStore.1).locked = false ∧
+    (((Sys.fresh cfg).run steps).dropStore.1).worker.pc = .dead ∧
+    (((Sys.fresh cfg).run steps).dropStore.1).worker.queue = [] := by
+  have hwf := (SysWF.fresh cfg).run steps (by simp [hs])
+  have := c14_drop_quiesces _ s hs (fun hd => by simpa [Worker.WF, hd] using hwf.1) hwf.2
+  exact ⟨this.1, this.2.1, this.2.2.1, this.2.2.2.1⟩
+
+/-- (h) System level: open a store on an empty directory, run any history of
+calls, flushes, worker steps (any outcomes), idle runs and drains, then `drop`.
+The store is gone, the lock released, the worker thread ended by itself with
+nothing queued; and ANY further history without `open` (worker steps, idle
+runs, drains, calls, flushes, drops) leaves the system, in particular the
+file system, unchanged: nothing touches the directory until the next `open`. -/
+theorem c14_drop_quiesces_system (cfg : Cfg) (steps more : List Step)
+    (hsteps : ∀ st ∈ steps, st.keepsStore = true) (hmore : ∀ st ∈ more, st.noOpen = true) :
+    let y := ((Sys.fresh cfg).run steps).step .drop
+    y.store = none ∧ y.locked = false ∧ y.worker.pc = .dead ∧ y.worker.queue = [] ∧
+    y.run more = y ∧ (y.run more).fs = y.fs := by
+  intro y
+  have hsome := Sys.run_store_isSome hsteps (Sys.fresh_store_isSome cfg)
+  cases hs : ((Sys.fresh cfg).run steps).store with
+  | none => simp [hs] at hsome
+  | some s =>
+    obtain ⟨h1, h2, h3, h4⟩ := c14_drop_quiesces_reachable cfg steps s hs
+    have h5 : y.run more = y := Sys.run_no_store h1 hmore
+    exact ⟨h1, h2, h3, h4, h5, by rw [h5]⟩
+
+/-- `drop` without a store does nothing. -/
+theorem c14_drop_none (y : Sys) (hs : y.store = none) : y.dropStore = (y, []) := by
+  simp [Sys.dropStore, hs]
+
+/-! ### Non-vacuity -/
+
+/-- A store with a flush and a rotation queued; the worker is in the middle
+of a write. -/
+def c14Demo : Sys :=
+  { fs := [{ id := 0 }],
+    locked := true,
+    store := some { cfg := {}, cache := { maxItems := 4, capacity := 100 }, openOffsets := [0] },
+    worker := { files := [⟨0, none⟩], pc := .writing [[1, 2]] [.write 2 [1, 2] (some 1)] none,
+                queue := [.write 3 [3] (some 2), .appendFile 9 none, .removeChunks [0]] } }
+
+example : c14Demo.dropStore.1.worker.queue = [] ∧ c14Demo.dropStore.1.worker.pc = .dead ∧
+    c14Demo.dropStore.1.locked = false ∧
+    cbsOf c14Demo.dropStore.2 = [(1, true), (2, true)] ∧
+    c14Demo.dropStore.1.fs = [{ id := 0, data := [1, 2, 3], durable := 3, linked := false }] := by
+  decide
+
+/-- The history on which the first version of `Worker.fuel` fell short (30
+chunks closed, 29 removals postponed behind a failed sync, a good sync, one more
+purge, `drop` while parked at the `fdatasync` in front of the second removal
+request): with the corrected fuel the join completes all 33 unlinks. -/
+def c14PostponedHistory : List Step :=
+  ((List.range 30).map fun i => Step.call (.append [(⟨1, i⟩, [])])) ++
+  [.workerIdle, .call (.purge ⟨1, 28⟩), .flush none] ++ List.replicate 6 (.worker .ok) ++
+  [.worker .eio, .flush none, .workerIdle, .call (.append [(⟨1, 30⟩, [])]),
+   .call (.purge ⟨1, 30⟩), .flush none] ++
+  List.replicate 9 (.worker .ok)
+
+set_option maxRecDepth 100000 in
+example :
+    (∀ st ∈ c14PostponedHistory, st.keepsStore = true) ∧
+    ((Sys.fresh { maxRecords := 1 }).run c14PostponedHistory).worker.postponed.length = 29 ∧
+    ((((Sys.fresh { maxRecords := 1 }).run c14PostponedHistory).step .drop).worker.queue = []) ∧
+    (((((Sys.fresh { maxRecords := 1 }).run c14PostponedHistory).step .drop).fs.filter
+        (fun f => f.linked)).map (·.id)) = [2186] := by
+  decide
+
+end RaftLog
